@@ -36,6 +36,9 @@
 (*   NoUnalias     - a use spelled through a type alias is invisible       *)
 (*   CtorAnyType   - a constructor of one type is exempt for every          *)
 (*                   annotated type of its package                         *)
+(*   CtorByBareName - the exemption is looked up under the current package *)
+(*                   and the bare type name: u's own type T (constructors  *)
+(*                   NewT, MakeT) exempts writes to d.T inside u.NewT      *)
 (***************************************************************************)
 EXTENDS Integers, Sequences, FiniteSets, TLC, Json
 
@@ -168,13 +171,16 @@ EnterDecl ==
   /\ UNCHANGED <<prog, fi, ci, diags>>
 
 \* what the checker decides for the statement, from the walk state only
+TwinCtors == {"NewT", "MakeT"}
 Seen(c) == ~("NoUnalias" \in Deviations /\ c.sp \in {"alias", "alias3", "chain", "ptralias", "ptrchain", "ptrofalias", "fnalias"})
 VisitVerdict(c) ==
   LET code == WriteCode(c.stmt)
       ownPkg == prog.pkg = "d" \/ "CtorAnyPkg" \in Deviations
       ctorsOfType == IF c.stmt = "onT2" /\ ~("CtorAnyType" \in Deviations) THEN {"NewT2"}
                      ELSE IF c.stmt = "onHidden" THEN {} ELSE Range(prog.ann.ctors)
-      exempt == ownPkg /\ cur \in ctorsOfType
+      \* package u declares a type of its own that is also called T, with constructors NewT and MakeT (TwinCtors)
+      twinExempt == "CtorByBareName" \in Deviations /\ prog.pkg = "u" /\ cur \in TwinCtors
+      exempt == (ownPkg /\ cur \in ctorsOfType) \/ twinExempt
   IN IF c.stmt \in {"starPlain", "starPlainInc"}
        THEN (IF prog.ann.imm /\ recv \in {"T", "C"} /\ ~exempt THEN (IF c.stmt = "starPlain" THEN "IMM01" ELSE "IMM03") ELSE "none")
      ELSE IF ~prog.ann.imm \/ code = "none" THEN "none"
